@@ -45,6 +45,7 @@ type frame struct {
 	panicking bool
 	panicV    interface{}
 	symIter   map[*ssa.BasicBlock]int
+	skipPhis  bool
 }
 
 type Draw struct {
@@ -107,6 +108,9 @@ type Exec struct {
 	sizeBound int
 	rtErrT    types.Type
 	syncMaps  map[*Value]*MapV
+	inMerge   int
+	mergeCond *Term
+	mergeFail map[*ssa.If]int
 }
 
 func (e *Exec) unsupported(msg string) {
@@ -422,7 +426,9 @@ func (fr *frame) run() {
 			}
 			nphi++
 		}
-		if nphi > 0 {
+		if fr.skipPhis {
+			fr.skipPhis = false
+		} else if nphi > 0 {
 			predIdx := -1
 			for i, p := range fr.block.Preds {
 				if p == fr.prev {
@@ -562,6 +568,15 @@ func (fr *frame) visit(instr ssa.Instruction) continuation {
 		if c.IsConst() {
 			take = c.k != 0
 		} else {
+			if e.mergeFail[instr] < 2 {
+				if cont, ok := fr.tryMergeIf(instr, c); ok {
+					return cont
+				}
+				if e.mergeFail == nil {
+					e.mergeFail = map[*ssa.If]int{}
+				}
+				e.mergeFail[instr]++
+			}
 			if fr.symIter == nil {
 				fr.symIter = map[*ssa.BasicBlock]int{}
 			}
